@@ -378,7 +378,11 @@ func mutate(r Rng, data []byte, donor []byte) ([]byte, string) {
 		fallthrough
 	default:
 		// footer-area flip (metadata JSON / lengths / version / magic)
-		i := len(out) - 1 - r.IntN(min(len(out), 200))
+		span := 200
+		if r.Chance(0.5) {
+			span = 24 // the fixed-width trailer: metadata hash, metadata length, version, magic
+		}
+		i := len(out) - 1 - r.IntN(min(len(out), span))
 		out[i] ^= byte(1 + r.IntN(255))
 		return out, fmt.Sprintf("tailflip@%d", i)
 	}
@@ -432,6 +436,10 @@ func c19Mutants(c *ctx) {
 			changed := !bytes.Equal(mutant, victim.Bytes)
 			c.r.Case(changed, fmt.Sprint(hi, mi, what))
 			c.r.Hit("mutant." + strings.SplitN(what, "@", 2)[0][:min(7, len(strings.SplitN(what, "@", 2)[0]))])
+			// (0) the footer alone: nothing in a file's trailer may make the reader allocate beyond the file
+			if pvm, allocm := guarded(func() { bs.ReadFileMetadata(bytes.NewReader(mutant)) }); pvm == nil && allocm > uint64(16*len(mutant)+(1<<20)) {
+				c.r.Add(Finding{Kind: "violation", Check: "mutant-alloc", Detail: fmt.Sprintf("ReadFileMetadata allocated %d bytes for a %d-byte file (%s mutant)", allocm, len(mutant), what), Replay: map[string]any{"ops": h.Ops, "file": victim.Ptr, "mutation": what}})
+			}
 			// (1) read helpers
 			pv, alloc := guarded(func() {
 				md, _, err := bs.ReadFileMetadata(bytes.NewReader(mutant))
@@ -594,11 +602,16 @@ func c19MergeAfterCorruption(c *ctx) {
 		h := &History{Env: env, Rows: map[int]*StoredRow{}}
 		nf := 2 + r.IntN(3)
 		id := 0
+		lone := r.IntN(nf) // this file also carries a block alone in its partition: a merge copies it verbatim
 		for f := 0; f < nf; f++ {
 			var rows []map[string]any
 			for j := 0; j < 1+r.IntN(3); j++ {
 				id++
 				rows = append(rows, map[string]any{"_id": id, "p": "a", "word": fmt.Sprintf("bravo%04d", id)})
+			}
+			if f == lone {
+				id++
+				rows = append(rows, map[string]any{"_id": id, "p": "zz-lone", "word": fmt.Sprintf("bravo%04d", id)})
 			}
 			env.IngestWait(rows)
 		}
@@ -619,6 +632,16 @@ func c19MergeAfterCorruption(c *ctx) {
 		}
 		victim := pick(r, layout)
 		vb := victim.Blocks[r.IntN(len(victim.Blocks))]
+		if r.Chance(0.5) {
+			// aim at the block the merge will copy rather than rebuild
+			for _, f := range layout {
+				for _, b := range f.Blocks {
+					if b.Meta.PartitionID == "zz-lone" {
+						victim, vb = f, b
+					}
+				}
+			}
+		}
 		mutant := append([]byte(nil), victim.Bytes...)
 		what := ""
 		if idx := bytes.Index(mutant[vb.Meta.RowDataOffset:vb.Meta.RowDataOffset+vb.Meta.RowDataSize], []byte("bravo")); cfg.RowDataCompression == bs.CompressionNone && idx >= 0 {
